@@ -56,6 +56,7 @@ def monitor_case(c):
     """List of (step index, what, cls)."""
     out = []
     live = {}   # name -> (reqid, status)
+    hung = set()  # names whose process owns the control socket but does not answer
     prev = None
     for i, s in enumerate(c["steps"]):
         cur = s["dump"]
@@ -65,8 +66,13 @@ def monitor_case(c):
             out.append((i, what, cls))
         if k == "live":
             live[s["name"]] = (s["reqid"], s["status"])
+            hung.discard(s["name"])
+        elif k == "hang":
+            live.pop(s["name"], None)
+            hung.add(s["name"])
         elif k == "unlive":
             live.pop(s["name"], None)
+            hung.discard(s["name"])
         same = prev is not None and snap(prev) == snap(cur)
         if k == "exec" and s.get("exec_note") != "skipped":
             b = c["steps"][i - 1].get("body") or {}
@@ -92,6 +98,9 @@ def monitor_case(c):
                 fail("stop accepted (code %d) while the DAG is not running" % code, **{"class": "stop-while-not-running"})
             if act in ("mark-success", "mark-failed") and running and (code == 200 or not same):
                 fail("status edit accepted (code %d) while the DAG is running" % code, **{"class": "mark-while-running"})
+            if act in ("mark-success", "mark-failed") and s["name"] in hung and (code == 200 or not same):
+                fail("status edit accepted (code %d) while the DAG's process is alive (it owns the control socket) but does not "
+                     "answer: the history of a running run was edited" % code, **{"class": "mark-while-unresponsive"})
             if code != 200:
                 spawned_retry = act == "retry" and b.get("requestId")
                 if not same or s["stops"] or (s["spawns"] and not spawned_retry):
@@ -247,6 +256,8 @@ def c_step(s, real):
                                          "true" if s.get("closed") else "false")
     if k == "live":
         return "SLive %s %s %d" % (cstring(L.map_path(s["loc"], real)), cstring(s["reqid"]), s.get("status", 0))
+    if k == "hang":     # the agent accepts the connection and never answers: live status st_timeout (99)
+        return "SLive %s %s 99" % (cstring(L.map_path(s["loc"], real)), cstring(""))
     if k == "unlive":
         return "SUnlive %s" % cstring(L.map_path(s["loc"], real))
     if k == "stubexit":
@@ -433,7 +444,7 @@ def run(ctx, replay_cases=None):
                 a = (s.get("body") or {}).get("action") if s["kind"] == "post" else s["kind"]
                 actions[str(a)] = actions.get(str(a), 0) + 1
                 codes[str(s["code"])] = codes.get(str(s["code"]), 0) + 1
-        if c["stream"] in ("table", "table-shapes"):
+        if c["stream"] in ("table", "table-shapes", "table-unresponsive"):
             last = c["steps"][-1]
             table.setdefault(c["row"], {})[c["state"]] = last["code"]
         if any(s["kind"] == "post" and s["code"] == 200 for s in c["steps"][4:]):
@@ -478,7 +489,8 @@ def run(ctx, replay_cases=None):
     ctx.cov["trusted_base"] += [
         "Section variables of Api: valid / graph_ok (verdicts of the loader and of NewExecutionGraph per text, supplied by the harness), "
         "retry_ok (exit status of the spawned retry process), tmpl, dir",
-        "live agents are modelled as (request id, status) answered on the DAG's socket; socket time-outs are not modelled",
+        "live agents are modelled as (request id, status) answered on the DAG's socket, plus the state st_timeout = the process accepts "
+        "the connection and never answers (a real listener that accepts and stays silent; every client request waits out its 3 s timeout)",
         "history at the abstract level (location -> runs -> status lines), run stamps distinct; latestStatusToday=false",
         "start parameters end to end: for 10 parameter strings the spawned argv is executed with the real blackdagger binary built from "
         "the tree under test (start on a one-step DAG); recorded Status.Params and the step's $NAME are compared with dag.Load of the given string",
